@@ -30,3 +30,6 @@ mod status;
 mod ui;
 mod validity;
 
+#[cfg(feature = "verif-hooks")]
+pub mod verif;
+
